@@ -83,6 +83,90 @@ fn ty_term(r: &Resolve, t: &Type) -> String {
     }
 }
 
+/// as `ty_term`, but handles carry their resource: `own@<interface>.<resource>`
+fn ann_term(r: &Resolve, t: &Type) -> String {
+    match t {
+        Type::Bool => "bool".into(),
+        Type::U8 => "u8".into(),
+        Type::S8 => "s8".into(),
+        Type::U16 => "u16".into(),
+        Type::S16 => "s16".into(),
+        Type::U32 => "u32".into(),
+        Type::S32 => "s32".into(),
+        Type::U64 => "u64".into(),
+        Type::S64 => "s64".into(),
+        Type::F32 => "f32".into(),
+        Type::F64 => "f64".into(),
+        Type::Char => "char".into(),
+        Type::String => "string".into(),
+        Type::ErrorContext => "errctx".into(),
+        Type::Id(id) => match &r.types[*id].kind {
+            TypeDefKind::Type(t) => ann_term(r, t),
+            TypeDefKind::List(t) => format!("(list {})", ann_term(r, t)),
+            TypeDefKind::FixedLengthList(t, n) => format!("(flist {} {n})", ann_term(r, t)),
+            TypeDefKind::Map(k, v) => format!("(map {} {})", ann_term(r, k), ann_term(r, v)),
+            TypeDefKind::Record(rec) => {
+                let mut s = "(record".to_string();
+                for f in &rec.fields {
+                    write!(s, " {}", ann_term(r, &f.ty)).unwrap();
+                }
+                s + ")"
+            }
+            TypeDefKind::Tuple(t) => {
+                let mut s = "(tuple".to_string();
+                for f in &t.types {
+                    write!(s, " {}", ann_term(r, f)).unwrap();
+                }
+                s + ")"
+            }
+            TypeDefKind::Flags(f) => format!("(flags {})", f.flags.len()),
+            TypeDefKind::Enum(e) => format!("(enum {})", e.cases.len()),
+            TypeDefKind::Variant(v) => {
+                let mut s = "(variant".to_string();
+                for c in &v.cases {
+                    write!(s, " {}", ann_opt_term(r, c.ty.as_ref())).unwrap();
+                }
+                s + ")"
+            }
+            TypeDefKind::Option(t) => format!("(option {})", ann_term(r, t)),
+            TypeDefKind::Result(res) => {
+                format!("(result {} {})", ann_opt_term(r, res.ok.as_ref()), ann_opt_term(r, res.err.as_ref()))
+            }
+            TypeDefKind::Handle(Handle::Own(id)) => format!("own@{}", res_name(r, *id)),
+            TypeDefKind::Handle(Handle::Borrow(id)) => format!("borrow@{}", res_name(r, *id)),
+            TypeDefKind::Future(t) => format!("(future {})", ann_opt_term(r, t.as_ref())),
+            TypeDefKind::Stream(t) => format!("(stream {})", ann_opt_term(r, t.as_ref())),
+            TypeDefKind::Resource => "resource".into(),
+            TypeDefKind::Unknown => "unknown".into(),
+        },
+    }
+}
+
+fn res_name(r: &Resolve, id: TypeId) -> String {
+    // follow `use` aliases to the defining resource
+    let mut id = id;
+    loop {
+        match &r.types[id].kind {
+            TypeDefKind::Type(Type::Id(t)) => id = *t,
+            _ => break,
+        }
+    }
+    let t = &r.types[id];
+    let owner = match t.owner {
+        TypeOwner::Interface(i) => r.interfaces[i].name.clone().unwrap_or_default(),
+        TypeOwner::World(_) => "$world".to_string(),
+        TypeOwner::None => "?".to_string(),
+    };
+    format!("{owner}.{}", t.name.clone().unwrap_or_default())
+}
+
+fn ann_opt_term(r: &Resolve, t: Option<&Type>) -> String {
+    match t {
+        Some(t) => ann_term(r, t),
+        None => "_".into(),
+    }
+}
+
 fn opt_term(r: &Resolve, t: Option<&Type>) -> String {
     match t {
         Some(t) => ty_term(r, t),
@@ -469,6 +553,8 @@ fn emit_named(out: &mut String, s: &Survey) {
                     "impl<'a> ::bn_rt::Show for {p}<'a> {{ fn show(&self, out: &mut String) {{ let id = self.get::<self::BnRes>().id; out.push_str(&format!(\"(h {{id}})\")); }} }}"
                 )
                 .unwrap();
+                // never built (borrows only travel host -> guest); needed because records containing one get a `Build` impl
+                writeln!(out, "impl<'a> ::bn_rt::Build for {p}<'a> {{ fn build(_t: &::bn_rt::Term) -> Self {{ unreachable!(\"bn: a borrow of an exported resource is never built by the harness\") }} }}").unwrap();
             }
         }
     }
@@ -606,7 +692,7 @@ fn manifest_line(
     let (kind, res) = func_kind(f);
     let params: Vec<String> = f.params.iter().map(|p| json_str(&ty_term(r, &p.ty))).collect();
     format!(
-        "{{\"item\":{idx},\"dir\":{},\"key\":{},\"iface\":{},\"name\":{},\"kind\":{},\"resource\":{},\"func\":{},\"params\":[{}],\"result\":{},\"sig_params\":{},\"sig_results\":{},\"indirect_params\":{},\"retptr\":{},\"post\":{}}}",
+        "{{\"item\":{idx},\"dir\":{},\"key\":{},\"iface\":{},\"name\":{},\"kind\":{},\"resource\":{},\"func\":{},\"params\":[{}],\"result\":{},\"params_ann\":[{}],\"result_ann\":{},\"sig_params\":{},\"sig_results\":{},\"indirect_params\":{},\"retptr\":{},\"post\":{}}}",
         json_str(dir),
         json_str(key),
         json_str(iface),
@@ -616,6 +702,8 @@ fn manifest_line(
         json_str(&func_term(r, f)),
         params.join(","),
         f.result.as_ref().map(|t| json_str(&ty_term(r, t))).unwrap_or("null".into()),
+        f.params.iter().map(|p| json_str(&ann_term(r, &p.ty))).collect::<Vec<_>>().join(","),
+        f.result.as_ref().map(|t| json_str(&ann_term(r, t))).unwrap_or("null".into()),
         json_str(&wts(&sig.params)),
         json_str(&wts(&sig.results)),
         sig.indirect_params,
@@ -896,7 +984,7 @@ fn emit_item(idx: usize, cfg: &Config, wit: &str) -> Result<(String, ItemOut)> {
             let args: Vec<String> = (0..f.params.len()).map(|i| format!("::bn_rt::Build::build(&items[{i}])")).collect();
             writeln!(
                 glue,
-                "fn bn_drive_{dk}(t: &::bn_rt::Term) -> String {{ let items = t.items(); assert_eq!(items.len(), {}); let r = {callee}({}); let s = ::bn_rt::harness(|| {{ let mut s = String::new(); ::bn_rt::Show::show(&r, &mut s); s }}); drop(r); ::bn_rt::release_keep(); s }}",
+                "fn bn_drive_{dk}(t: &::bn_rt::Term, keep: bool) -> String {{ let items = t.items(); assert_eq!(items.len(), {}); let r = {callee}({}); let mut s = ::bn_rt::harness(|| {{ let mut s = String::new(); ::bn_rt::Show::show(&r, &mut s); s }}); if keep {{ let k = ::bn_rt::stash(Box::new(r)); s = ::bn_rt::harness(|| format!(\"{{s}} #{{k}}\")); }} else {{ drop(r); }} ::bn_rt::release_keep(); s }}",
                 f.params.len(),
                 args.join(", ")
             )
